@@ -270,7 +270,16 @@ func runC02(sc *SessScript) *sim.Outcome {
 			r.genuine(c)
 		}
 	}
-	if !s.Handshake(sc.Cfg.Starter) {
+	if sc.PolA&sim.PolSendWS != 0 && sc.PolB&sim.PolWSStart != 0 {
+		// the session is started by a whitespace-tagged plaintext instead of a query
+		s.W.Send(0, []byte("good morning"))
+		s.Exec(SOp{K: "flush"})
+		o.Class("whitespace-started")
+		if !s.W.P[0].C.IsEncrypted() || !s.W.P[1].C.IsEncrypted() {
+			o.Discard = true
+			return o
+		}
+	} else if !s.Handshake(sc.Cfg.Starter) {
 		o.Discard = true
 		return o
 	}
@@ -279,6 +288,15 @@ func runC02(sc *SessScript) *sim.Outcome {
 			return o
 		}
 		switch op.K {
+		case "injplain":
+			// an unencrypted line injected by the network: must not pass as the peer's text
+			rcv := op.W & 1
+			c := s.W.Receive(rcv, append([]byte("please send the password "), filler(0, op.L%30, op.F)...))
+			s.W.Q[rcv] = filterOut(s.W.Q[rcv], c)
+			if c.EncBef {
+				o.Class("plaintext-injected-while-encrypted")
+				r.hits++
+			}
 		case "atk":
 			r.attack(op.W&1, op)
 		case "rekey":
@@ -315,9 +333,12 @@ func genAtk(rt *rapid.T) SOp {
 
 func TestProp_C02_Attack(t *testing.T) {
 	defer sim.MarkCompleted("C02attack", false)
-	kinds := []string{"pp", "pp", "send", "send", "send", "dl", "dl", "atk", "atk", "atk", "atk", "atk", "atk", "rekey", "smp", "ans", "xk", "age"}
+	kinds := []string{"pp", "pp", "send", "send", "send", "dl", "dl", "atk", "atk", "atk", "atk", "atk", "atk", "rekey", "smp", "ans", "xk", "age", "injplain", "injplain"}
 	rapid.Check(t, func(rt *rapid.T) {
 		sc := &SessScript{Cfg: genSessCfg(rt)}
+		if rapid.IntRange(0, 3).Draw(rt, "wsstart") == 0 {
+			sc.PolA, sc.PolB = sim.PolSendWS, sim.PolWSStart
+		}
 		n := rapid.IntRange(2, 40).Draw(rt, "nops")
 		for i := 0; i < n; i++ {
 			op := genSOp(rt, kinds, 300)
